@@ -510,6 +510,24 @@ def guarded_map(fn, items, per_item_timeout: float = 5.0, nproc: int = NCPU, max
 
     with cf.ThreadPoolExecutor(nproc) as ex:
         list(ex.map(run_shard, shards))
+    # second chance: a timeout under machine load must not be reported as a hang — re-run each timed-out item alone,
+    # sequentially, with six times the budget; only an item that still does not finish keeps {"timeout": True}
+    for i, r in enumerate(res):
+        if isinstance(r, dict) and r.get("timeout"):
+            parent, child = ctx.Pipe(duplex=False)
+            p = ctx.Process(target=_guard_child, args=(fn, [items[i]], 0, child), daemon=True)
+            p.start()
+            child.close()
+            try:
+                if parent.poll(per_item_timeout * 6):
+                    k, rr = parent.recv()
+                    if k == 0:
+                        res[i] = rr
+            except EOFError:
+                pass
+            p.kill()
+            p.join()
+            parent.close()
     return res
 
 
